@@ -1,6 +1,10 @@
 import GscribModel.Drv.Socket
 import GscribModel.Drv.Builder
 import GscribModel.Drv.Heightmap
+import GscribModel.Drv.Sender
+import GscribModel.Drv.DirectWrite
+import GscribModel.Drv.Writers
+import GscribModel.Drv.Report
 /-! Line-protocol driver: `driver <mode>` (or `lake env lean --run Driver.lean <mode>`) reads one
     case/operation per line on stdin and prints exactly one record per line (`bad-op …` for an
     unparsable line).  Each mode lives in `GscribModel/Drv/<Mode>.lean`. -/
@@ -11,4 +15,8 @@ def main (args : List String) : IO UInt32 := do
   | ["socket"] => SocketDrv.main; return 0
   | ["builder"] => BuilderDrv.main; return 0
   | ["heightmap"] => HeightmapDrv.main; return 0
+  | ["sender"] => SenderDrv.main; return 0
+  | ["directwrite"] => DirectWriteDrv.main; return 0
+  | ["writers"] => WritersDrv.main; return 0
+  | ["report"] => ReportDrv.main; return 0
   | _ => IO.eprintln s!"unknown mode {args}"; return 2
